@@ -45,6 +45,39 @@ pub enum DUnit {
     /// backslash followed by this char, inside double quotes
     Esc(char),
     Param(Param),
+    Cmd(Cmd),
+    Arith(i32),
+}
+
+/// A command substitution whose command prints `text` and a newline: `$(echo 'text')` or
+/// `` `echo 'text'` ``. `text` contains no single quote, and no backslash in the backquote form.
+#[derive(Clone, Debug, PartialEq, Eq, Hash, Serialize, Deserialize)]
+pub struct Cmd {
+    pub text: String,
+    pub backquote: bool,
+}
+
+impl Cmd {
+    /// what the substitution yields: the output minus all trailing newlines
+    pub fn output(&self) -> String {
+        self.text.trim_end_matches('\n').to_string()
+    }
+    fn render(&self, out: &mut String) {
+        assert!(!self.text.contains('\'') && !(self.backquote && self.text.contains('\\')));
+        if self.backquote {
+            out.push_str("`echo '");
+            out.push_str(&self.text);
+            out.push_str("'`");
+        } else {
+            out.push_str("$(echo '");
+            out.push_str(&self.text);
+            out.push_str("')");
+        }
+    }
+}
+
+fn render_arith(n: i32, out: &mut String) {
+    out.push_str(&format!("$(({n}))"));
 }
 
 #[derive(Clone, Debug, PartialEq, Eq, Hash, Serialize, Deserialize)]
@@ -54,6 +87,10 @@ pub enum Unit {
     SQ(String),
     DQ(Vec<DUnit>),
     Param(Param),
+    /// unquoted command substitution: its result is subject to field splitting
+    Cmd(Cmd),
+    /// unquoted arithmetic expansion of a constant: its digits are subject to field splitting
+    Arith(i32),
 }
 
 #[derive(Clone, Debug, PartialEq, Eq, Hash, Serialize, Deserialize)]
@@ -149,11 +186,15 @@ pub fn render_units(units: &[Unit], out: &mut String, in_dq: bool, _in_brace: bo
                             out.push(*c);
                         }
                         DUnit::Param(p) => render_param(p, out, true),
+                        DUnit::Cmd(c) => c.render(out),
+                        DUnit::Arith(n) => render_arith(*n, out),
                     }
                 }
                 out.push('"');
             }
             Unit::Param(p) => render_param(p, out, in_dq),
+            Unit::Cmd(c) => c.render(out),
+            Unit::Arith(n) => render_arith(*n, out),
         }
     }
 }
@@ -469,8 +510,21 @@ impl Expander {
                                 }
                                 out.extend(f[0].iter().filter(|a| !a.mark).map(|a| PC { c: a.c, lit: true }));
                             }
+                            DUnit::Cmd(c) => out.extend(c.output().chars().map(|c| PC { c, lit: true })),
+                            DUnit::Arith(n) => out.extend(n.to_string().chars().map(|c| PC { c, lit: true })),
                         }
                     }
+                }
+                Unit::Cmd(_) | Unit::Arith(_) => {
+                    let text = match u {
+                        Unit::Cmd(c) => c.output(),
+                        Unit::Arith(n) => n.to_string(),
+                        _ => unreachable!(),
+                    };
+                    if text.contains('\\') {
+                        return Err(Stop::Unspecified("backslash produced by an unquoted expansion inside a pattern"));
+                    }
+                    out.extend(text.chars().map(|c| PC { c, lit: false }));
                 }
                 Unit::Param(p) => {
                     if matches!(p.name, Name::At | Name::Star) {
@@ -536,6 +590,14 @@ impl Expander {
                             }
                             ph
                         }
+                        DUnit::Cmd(c) => {
+                            only_at = false;
+                            Phrase::one(Self::chars(&c.output(), false, true))
+                        }
+                        DUnit::Arith(n) => {
+                            only_at = false;
+                            Phrase::one(Self::chars(&n.to_string(), false, true))
+                        }
                     };
                     acc = acc.append(ph);
                 }
@@ -554,6 +616,8 @@ impl Expander {
                 acc
             }
             Unit::Param(p) => self.param(p, false)?,
+            Unit::Cmd(c) => Phrase::one(Self::chars(&c.output(), true, false)),
+            Unit::Arith(n) => Phrase::one(Self::chars(&n.to_string(), true, false)),
         })
     }
 
